@@ -112,3 +112,22 @@ def lastidx_ext(ctx):
           z3.ForAll([k], z3.Implies(k >= 0, f2(k + 1) == z3.If(h2(k), k, f2(k))), patterns=[f2(k + 1)]),
           z3.ForAll([j], z3.Implies(z3.And(0 <= j, j < n), h1(j) == h2(j)), patterns=[h1(j)])]
     return [("base", ax, f2(0) == f1(0), "k = 0"), ("step", ax + [0 <= b, b < n, f2(b) == f1(b)], f2(b + 1) == f1(b + 1), "k -> k+1")]
+
+
+@lemma("wsum_filter", ["C10"])
+def wsum_filter(ctx):
+    """R = [x for x in L if c(x)] seen through the counting function cnt (cnt(0)=0, cnt(j+1)=cnt(j)+[c(j)], R[cnt(j)]=L[j] when c(j)):
+       if every element that is filtered out has weight 0 then  fR(cnt(j)) = fL(j) for all j <= n, in particular fR(m) = fL(n)   (induction on j)"""
+    fL, fR = z3.Function("fL", I, I), z3.Function("fR", I, I)
+    wL, wR = z3.Function("wL", I, I), z3.Function("wR", I, I)
+    c = z3.Function("c", I, z3.BoolSort())
+    cnt = z3.Function("cnt", I, I)
+    n, k, j, b = z3.Ints("n k j b")
+    ax = [fL(0) == 0, fR(0) == 0, cnt(0) == 0, n >= 0,
+          z3.ForAll([k], z3.Implies(k >= 0, fL(k + 1) == fL(k) + wL(k)), patterns=[fL(k + 1)]),
+          z3.ForAll([k], z3.Implies(k >= 0, fR(k + 1) == fR(k) + wR(k)), patterns=[fR(k + 1)]),
+          z3.ForAll([j], z3.Implies(j >= 0, z3.And(cnt(j + 1) == cnt(j) + z3.If(z3.And(j < n, c(j)), 1, 0), cnt(j) >= 0)), patterns=[cnt(j + 1)]),
+          z3.ForAll([j], z3.Implies(z3.And(0 <= j, j < n, c(j)), wR(cnt(j)) == wL(j)), patterns=[cnt(j)]),
+          z3.ForAll([j], z3.Implies(z3.And(0 <= j, j < n, z3.Not(c(j))), wL(j) == 0), patterns=[wL(j)])]
+    return [("base", ax, fR(cnt(0)) == fL(0), "j = 0"),
+            ("step", ax + [0 <= b, b < n, fR(cnt(b)) == fL(b)], fR(cnt(b + 1)) == fL(b + 1), "j -> j+1")]
